@@ -15,7 +15,7 @@ Theorem C15_gzip_structure :
   GZIP_EARLY_RETURNS =
   ["not hasattr(resp, 'vary') => return resp";
    "resp.content_encoding or not request.accept_encodings['gzip'] => return resp";
-   "'msie' in (request.user_agent.browser or '') && not (resp.content_type.startswith('text/') or 'javascript' in resp.content_type) => return resp";
+   "'msie' in (request.user_agent.browser or '') && not (content_type.startswith('text/') or 'javascript' in content_type) => return resp";
    "resp.is_streamed => return resp";
    "len(comp_content) >= len(resp.data) => return resp"] /\
   GZIP_EFFECTS =
